@@ -62,4 +62,8 @@ class AttrDict:
         if key in self._PROTECTED_KEYS or key.startswith("__"):
             super().__delattr__(key)
         else:
-            self.__delitem__(key)
+            try:
+                self.__delitem__(key)
+            except KeyError as e:
+                # Like __getattr__, a missing key is a missing attribute.
+                raise AttributeError(e)
